@@ -58,10 +58,15 @@ pub fn dead_code_elimination(function: &il::Function) -> Result<il::Function, Er
                         function,
                         il::RefFunctionLocation::Instruction(block, instruction),
                     );
-                    if let Some(reaching) = rd.get(&rpl.into()) {
-                        reaching.locations().iter().for_each(|location| {
-                            live.insert(location.function_location().clone());
-                        });
+                    // The definitions which reach this instruction are those
+                    // which hold after its predecessors (an intrinsic kills
+                    // the definitions of the scalars it writes).
+                    for predecessor in rpl.backward()? {
+                        if let Some(reaching) = rd.get(&predecessor.into()) {
+                            reaching.locations().iter().for_each(|location| {
+                                live.insert(location.function_location().clone());
+                            });
+                        }
                     }
                 }
                 _ => {}
